@@ -19,6 +19,18 @@ def run_box(mod, fn, box, ri, rj, assume=(), fpmode='real', parsed=None):
     res, st = explore(mod, models.all_models(), body, fpmode=fpmode, parsed=parsed)
     return [(list(it.pc), r, it) for it, r in res], st
 
+def merge(paths):
+    """several feasible paths of one kernel (a change may turn the branch-free rounding into if/else chains) as ONE guarded
+    expression: path condition = disjunction of the path conditions, result = nested if-then-else over them"""
+    if len(paths) == 1: return paths[0]
+    conds = [z3.And(pc) if pc else z3.BoolVal(True) for pc, r, it in paths]
+    res = []
+    for i in range(3):
+        e = symx.Interp.R(paths[-1][1][i])
+        for c, (pc, r, it) in zip(reversed(conds[:-1]), reversed(paths[:-1])): e = z3.If(c, symx.Interp.R(r[i]), e)
+        res.append(e)
+    return [z3.Or(conds)], res, paths[0][2]
+
 def vec(prefix, n=3, sort=z3.Real): return [sort('%s%d' % (prefix, i)) for i in range(n)]
 
 def tric_box_syms():
@@ -90,8 +102,8 @@ def check_c02(ck, tier, replay=None):
     L = vec('L'); Lpos = [l > 0 for l in L]
     obox = [L[0], F(0), F(0), F(0), L[1], F(0), F(0), F(0), L[2]]
     paths, st = run_box(mod, 'ortho', obox, ri, rj, Lpos, parsed=parsed); stubs |= st['models_used']
-    assert len(paths) == 1, 'orthorhombic kernel forked: %d paths' % len(paths)
-    pc, res, it = paths[0]
+    if len(paths) != 1: ck.notes.append('orthorhombic kernel has %d paths (merged into one guarded expression)' % len(paths))
+    pc, res, it = merge(paths)
     ck.add_witness('ortho path condition satisfiable', smt.check(pc)[0] == 'sat')
     ck.sample({'unit': 'OrthorhombicBox::BCShortestConnection', 'result_x': str(z3.simplify(res[0]))[:200], 'path_condition': [str(c)[:160] for c in pc[:4]]})
     fresh = vec('free')
@@ -111,13 +123,13 @@ def check_c02(ck, tier, replay=None):
         sh = [z3.Real('sh%d' % i) for i in range(3)]
         if which == 'rj': p2, _ = run_box(mod, 'ortho', obox, ri, sh, Lpos, parsed=parsed)
         else: p2, _ = run_box(mod, 'ortho', obox, sh, rj, Lpos, parsed=parsed)
-        pc2, res2, _ = p2[0]
+        pc2, res2, _ = merge(p2)
         base = rj if which == 'rj' else ri
         link = [sh[i] == base[i] + z3.ToReal(n[i]) * L[i] for i in range(3)]
         for i in range(3):
             smt.prove(ck, 'ortho.invariance[%s+n.L][%d]' % (which, i), pc + pc2 + link + notie, res2[i] != res[i], TO, probe=Lpos + link + [fresh[i] != res[i]] + pc, divform=True)
     # O3 antisymmetry
-    p3, _ = run_box(mod, 'ortho', obox, rj, ri, Lpos, parsed=parsed); pc3, res3, _ = p3[0]
+    p3, _ = run_box(mod, 'ortho', obox, rj, ri, Lpos, parsed=parsed); pc3, res3, _ = merge(p3)
     for i in range(3):
         smt.prove(ck, 'ortho.antisymmetry[%d] (ties included: round is half-away-from-zero, hence odd)' % i, pc + pc3, res3[i] != -res[i], TO, probe=Lpos + pc + [fresh[i] != -res[i]], divform=True)
     # ------------------------------------------------------------------ open box
